@@ -1,12 +1,899 @@
 package wsim
 
-// Handshake family (D): filled in by hs_*.go.
-type HSScn struct {
-	Kind string `json:"kind"`
+import (
+	"bufio"
+	"bytes"
+	"context"
+	"crypto/ed25519"
+	"crypto/rand"
+	"crypto/tls"
+	"crypto/x509"
+	"crypto/x509/pkix"
+	"encoding/base64"
+	"fmt"
+	"io"
+	"math/big"
+	"net"
+	"net/http"
+	"net/url"
+	"strings"
+	"time"
+
+	"github.com/gorilla/websocket"
+)
+
+// ---------------------------------------------------------------------------
+// Family D: handshakes over a topology of nodes (client, optional proxy,
+// backend). Everything runs on SimNet inside the bubble.
+// ---------------------------------------------------------------------------
+
+// Reply describes what a byzantine backend answers to an upgrade request.
+type Reply struct {
+	Status     int         `json:"status"`
+	StatusLine string      `json:"status_line,omitempty"` // overrides "HTTP/1.1 <status> <text>"
+	Accept     string      `json:"accept"`                // good | stale | other | mangled | missing | lower
+	Upgrade    []string    `json:"upgrade"`               // header lines
+	Connection []string    `json:"connection"`
+	Extra      [][2]string `json:"extra,omitempty"`
+	BodyLen    int         `json:"body_len,omitempty"`
+	TruncAt    int         `json:"trunc_at,omitempty"` // >0: send only this many bytes of the reply, then close
+	Raw        []byte      `json:"raw,omitempty"`      // free-form reply bytes (C07)
+	CloseAfter bool        `json:"close_after,omitempty"`
+	Ext        string      `json:"ext,omitempty"` // Sec-WebSocket-Extensions value
+	Frames     int         `json:"frames,omitempty"`
 }
 
-type HSRun struct{}
+type Backend struct {
+	Kind string `json:"kind"` // upgrader | byz | silent (accepts and never answers)
+	TLS  bool   `json:"tls,omitempty"`
+	Cert string `json:"cert,omitempty"` // valid | otherhost | untrusted
+	Reply Reply `json:"reply,omitempty"`
+	Comp bool   `json:"comp,omitempty"`
+	HsTimeoutMs int64 `json:"hs_timeout_ms,omitempty"`
+	Server string `json:"server,omitempty"` // mini | nethttp (upgrader kind)
+}
 
-func runHS(s *Sim, scn *Scenario, run *Run) {}
+type ProxyCfg struct {
+	Kind  string `json:"kind"`  // http | https | socks5
+	Reply string `json:"reply"` // 200 | 403 | 407 | 407-noreason | 502-long | garbage | close | silent
+	Cert  string `json:"cert,omitempty"`
+	Raw   []byte `json:"raw,omitempty"` // free-form CONNECT reply (C07)
+	SocksCode byte `json:"socks_code,omitempty"` // 0 success
+}
 
-func shrinkHS(s *Scenario) []*Scenario { return nil }
+// HSDial is one Dial call.
+type HSDial struct {
+	URL          string              `json:"url"`
+	Header       map[string][]string `json:"header,omitempty"`
+	Subprotocols []string            `json:"subprotocols,omitempty"`
+	Comp         bool                `json:"comp,omitempty"`
+	RBuf         int                 `json:"rbuf,omitempty"`
+	WBuf         int                 `json:"wbuf,omitempty"`
+	HsTimeoutMs  int64               `json:"hs_timeout_ms,omitempty"`
+	CtxTimeoutMs int64               `json:"ctx_timeout_ms,omitempty"`
+	ProxyURL     string              `json:"proxy_url,omitempty"`
+	Hooks        string              `json:"hooks"` // subset of "dct": NetDial, NetDialContext, NetDialTLSContext
+	Untrusting   bool                `json:"untrusting,omitempty"` // TLSClientConfig without the test CA
+	Backend      Backend             `json:"backend"`
+	Proxy        *ProxyCfg           `json:"proxy,omitempty"`
+	IdleMs       int64               `json:"idle_ms,omitempty"` // after success: idle this long, then exchange a message
+	SrvFaults    []OpFault           `json:"srv_faults,omitempty"`
+}
+
+type HSScn struct {
+	Dials []HSDial `json:"dials"`
+	// server-side class: a byzantine client against a real Upgrader
+	SrvReq    []byte    `json:"srv_req,omitempty"` // raw request bytes
+	SrvFaults []OpFault `json:"srv_faults,omitempty"`
+	Srv       *Backend  `json:"srv,omitempty"`
+}
+
+type HookCall struct {
+	Hook    string
+	Network string
+	Addr    string
+	Conn    *SimConn
+	// state of the connection at the moment Dial returned
+	RdAtReturn, WrAtReturn int64 // armed deadlines (ns since start; -1 = none)
+	ClosedAtReturn         bool
+	ClosedLater            bool // ten simulated seconds after a failed Dial returned
+}
+
+type ProxyLog struct {
+	Connects   int
+	Targets    []string
+	Auth       []string // Proxy-Authorization values ("" if absent)
+	FirstBytes []byte   // first bytes the client sent (before TLS unwrapping, for https proxies after it)
+	RawFirst   []byte   // first raw bytes on the proxy's connection
+	SocksTarget string
+	SocksAuth  string
+	TunnelFirst []byte // first bytes relayed to the backend
+	SNI        string
+}
+
+type BackendLog struct {
+	Accepted  int
+	RawFirst  []byte // first raw bytes received on the accepted connection
+	SNI       string
+	Request   []byte // request head as received (inside TLS if any)
+	Key       string
+	HTTPParsed *http.Request
+	Upgraded  bool
+	UpgradeErr string
+	SrvConn   *SimConn
+	Echoed    int
+	TLSErr    string
+}
+
+// DialResult is what one Dial call produced.
+type DialResult struct {
+	Conn      *websocket.Conn
+	Resp      *http.Response
+	Err       error
+	ErrClass  string
+	ErrText   string
+	Panic     string
+	Start     int64
+	End       int64
+	Returned  bool
+	Hooks     []HookCall
+	Proxy     ProxyLog
+	Backend   BackendLog
+	BodyRead  []byte
+	PostErr   string // result of the post-idle message exchange ("" ok)
+	PostDone  bool
+	StepStart uint64
+	StepEnd   uint64
+	RespBody  []byte
+}
+
+type HSRun struct {
+	Dials []*DialResult
+	Srv   *BackendLog
+	SrvResp []byte
+}
+
+type hsRunner struct {
+	sim  *Sim
+	net  *Net
+	scn  *Scenario
+	run  *Run
+	ca   *testCA
+	res  []*DialResult
+	keys []string
+}
+
+// ---------------------------------------------------------------------------
+// Certificates (Ed25519, minted inside the bubble so validity is relative to the fake clock)
+// ---------------------------------------------------------------------------
+
+type testCA struct {
+	cert *x509.Certificate
+	key  ed25519.PrivateKey
+	pool *x509.CertPool
+}
+
+func newCA(name string) *testCA {
+	pub, priv, _ := ed25519.GenerateKey(rand.Reader)
+	tmpl := &x509.Certificate{SerialNumber: big.NewInt(1), Subject: pkix.Name{CommonName: name},
+		NotBefore: time.Now().Add(-time.Hour), NotAfter: time.Now().Add(1000 * time.Hour),
+		IsCA: true, KeyUsage: x509.KeyUsageCertSign, BasicConstraintsValid: true}
+	der, err := x509.CreateCertificate(rand.Reader, tmpl, tmpl, pub, priv)
+	if err != nil {
+		panic(err)
+	}
+	cert, _ := x509.ParseCertificate(der)
+	pool := x509.NewCertPool()
+	pool.AddCert(cert)
+	return &testCA{cert: cert, key: priv, pool: pool}
+}
+
+func (ca *testCA) leaf(host string) tls.Certificate {
+	pub, priv, _ := ed25519.GenerateKey(rand.Reader)
+	tmpl := &x509.Certificate{SerialNumber: big.NewInt(2), Subject: pkix.Name{CommonName: host},
+		NotBefore: time.Now().Add(-time.Hour), NotAfter: time.Now().Add(1000 * time.Hour),
+		KeyUsage: x509.KeyUsageDigitalSignature, ExtKeyUsage: []x509.ExtKeyUsage{x509.ExtKeyUsageServerAuth}}
+	if ip := net.ParseIP(strings.Trim(host, "[]")); ip != nil {
+		tmpl.IPAddresses = []net.IP{ip}
+	} else {
+		tmpl.DNSNames = []string{host}
+	}
+	der, err := x509.CreateCertificate(rand.Reader, tmpl, ca.cert, pub, ca.key)
+	if err != nil {
+		panic(err)
+	}
+	return tls.Certificate{Certificate: [][]byte{der}, PrivateKey: priv}
+}
+
+// serverTLS wraps c for a node that presents the given kind of certificate for host.
+func (h *hsRunner) serverTLS(c net.Conn, kind, host string, sni *string) *tls.Conn {
+	var cert tls.Certificate
+	switch kind {
+	case "otherhost":
+		cert = h.ca.leaf("other.example")
+	case "untrusted":
+		cert = newCA("rogue CA").leaf(host)
+	default:
+		cert = h.ca.leaf(host)
+	}
+	cfg := &tls.Config{Certificates: []tls.Certificate{cert}, GetConfigForClient: func(chi *tls.ClientHelloInfo) (*tls.Config, error) {
+		*sni = chi.ServerName
+		return nil, nil
+	}}
+	return tls.Server(c, cfg)
+}
+
+func hostOnly(hostport string) string {
+	h, _, err := net.SplitHostPort(hostport)
+	if err != nil {
+		return hostport
+	}
+	return h
+}
+
+// ---------------------------------------------------------------------------
+// Running the scenario
+// ---------------------------------------------------------------------------
+
+func runHS(s *Sim, scn *Scenario, run *Run) {
+	h := &hsRunner{sim: s, scn: scn, run: run}
+	h.net = s.NewNet(scn.Net)
+	h.ca = newCA("wsim test CA")
+	run.HS = &HSRun{}
+	hs := scn.HS
+	if hs.Srv != nil {
+		h.runServerSide(hs)
+	} else {
+		for range hs.Dials {
+			h.res = append(h.res, &DialResult{})
+		}
+		// nodes of every dial are registered up front (dial i uses addresses unique to it through its URL)
+		for i := range hs.Dials {
+			h.net.regNS = i
+			h.registerNodes(i)
+		}
+		s.GoID(0, "dialer", func(t *Task) {
+			for i := range hs.Dials {
+				h.net.SetNS(i)
+				h.dial(i, t)
+				t.Yield()
+			}
+		})
+	}
+	run.Reason = s.Drive()
+	run.Leaked = s.Teardown()
+	run.HS.Dials = h.res
+}
+
+// backendAddr is the host:port the backend of dial i listens on.
+func backendAddr(d *HSDial) string {
+	u, err := url.Parse(d.URL)
+	if err != nil {
+		return "invalid:0"
+	}
+	hp := u.Host
+	if i := strings.LastIndex(hp, ":"); i <= strings.LastIndex(hp, "]") {
+		if u.Scheme == "wss" {
+			hp += ":443"
+		} else {
+			hp += ":80"
+		}
+	}
+	return hp
+}
+
+func proxyAddr(d *HSDial) string {
+	u, err := url.Parse(d.ProxyURL)
+	if err != nil || d.ProxyURL == "" {
+		return ""
+	}
+	hp := u.Host
+	if i := strings.LastIndex(hp, ":"); i <= strings.LastIndex(hp, "]") {
+		switch u.Scheme {
+		case "https":
+			hp += ":443"
+		case "socks5":
+			hp += ":1080"
+		default:
+			hp += ":80"
+		}
+	}
+	return hp
+}
+
+func (h *hsRunner) registerNodes(i int) {
+	d := &h.scn.HS.Dials[i]
+	res := h.res[i]
+	baddr := backendAddr(d)
+	h.net.Handle(baddr, func(c *SimConn) { h.serveBackend(i, c, &res.Backend) })
+	if d.Proxy != nil {
+		h.net.Handle(proxyAddr(d), func(c *SimConn) { h.serveProxy(i, c) })
+	}
+}
+
+func (h *hsRunner) clientTLSConfig(d *HSDial) *tls.Config {
+	cfg := &tls.Config{}
+	if !d.Untrusting {
+		cfg.RootCAs = h.ca.pool
+	} else {
+		cfg.RootCAs = x509.NewCertPool()
+	}
+	return cfg
+}
+
+func (h *hsRunner) dial(i int, t *Task) {
+	d := &h.scn.HS.Dials[i]
+	res := h.res[i]
+	dialer := websocket.Dialer{ReadBufferSize: d.RBuf, WriteBufferSize: d.WBuf, EnableCompression: d.Comp, Subprotocols: d.Subprotocols}
+	raw := func(hook, network, addr string) (net.Conn, error) {
+		c, err := h.net.Dial(t, addr)
+		hc := HookCall{Hook: hook, Network: network, Addr: addr}
+		if sc, ok := c.(*SimConn); ok {
+			hc.Conn = sc
+		}
+		res.Hooks = append(res.Hooks, hc)
+		return c, err
+	}
+	if strings.Contains(d.Hooks, "d") {
+		dialer.NetDial = func(network, addr string) (net.Conn, error) { return raw("NetDial", network, addr) }
+	}
+	if strings.Contains(d.Hooks, "c") {
+		dialer.NetDialContext = func(ctx context.Context, network, addr string) (net.Conn, error) {
+			return raw("NetDialContext", network, addr)
+		}
+	}
+	if strings.Contains(d.Hooks, "t") {
+		dialer.NetDialTLSContext = func(ctx context.Context, network, addr string) (net.Conn, error) {
+			c, err := raw("NetDialTLSContext", network, addr)
+			if err != nil {
+				return nil, err
+			}
+			// the hook is trusted to do TLS itself: it does, verifying against the test CA
+			cfg := h.clientTLSConfig(d)
+			cfg.ServerName = hostOnly(addr)
+			tc := tls.Client(c, cfg)
+			if err := tc.HandshakeContext(ctx); err != nil {
+				c.Close()
+				return nil, err
+			}
+			return tc, nil
+		}
+	}
+	dialer.TLSClientConfig = h.clientTLSConfig(d)
+	if d.ProxyURL != "" {
+		pu, perr := url.Parse(d.ProxyURL)
+		dialer.Proxy = func(*http.Request) (*url.URL, error) { return pu, perr }
+	}
+	if d.HsTimeoutMs > 0 {
+		dialer.HandshakeTimeout = time.Duration(d.HsTimeoutMs) * time.Millisecond
+	}
+	ctx := context.Background()
+	if d.CtxTimeoutMs > 0 {
+		var cancel func()
+		ctx, cancel = context.WithTimeout(ctx, time.Duration(d.CtxTimeoutMs)*time.Millisecond)
+		defer cancel()
+	}
+	res.Start = int64(h.sim.Now())
+	res.StepStart = h.sim.Step()
+	func() {
+		defer func() {
+			if p := recover(); p != nil {
+				if _, ok := p.(abortRun); ok {
+					panic(p)
+				}
+				res.Panic = fmt.Sprintf("%v\n%s", p, stackTrace())
+			}
+		}()
+		res.Conn, res.Resp, res.Err = dialer.DialContext(ctx, d.URL, http.Header(d.Header))
+	}()
+	res.End = int64(h.sim.Now())
+	res.StepEnd = h.sim.Step()
+	for k := range res.Hooks {
+		if c := res.Hooks[k].Conn; c != nil {
+			rd, wr := c.Deadlines()
+			res.Hooks[k].RdAtReturn, res.Hooks[k].WrAtReturn = relTime(h.sim, rd), relTime(h.sim, wr)
+			res.Hooks[k].ClosedAtReturn = c.IsClosed()
+		}
+	}
+	res.Returned = true
+	res.ErrClass = classify(res.Err)
+	if res.Err != nil {
+		res.ErrText = res.Err.Error()
+	}
+	if res.Resp != nil && res.Resp.Body != nil {
+		b, _ := io.ReadAll(io.LimitReader(res.Resp.Body, 1<<20))
+		res.RespBody = b
+	}
+	if res.Conn != nil && d.IdleMs > 0 {
+		t.Sleep(time.Duration(d.IdleMs) * time.Millisecond)
+		msg := []byte("after the idle hour")
+		err := res.Conn.WriteMessage(websocket.TextMessage, msg)
+		if err == nil {
+			var p []byte
+			_, p, err = res.Conn.ReadMessage()
+			if err == nil && !bytes.Equal(p, msg) {
+				err = fmt.Errorf("echo mismatch")
+			}
+		}
+		if err != nil {
+			res.PostErr = err.Error()
+		}
+		res.PostDone = true
+	}
+	if res.Conn != nil {
+		res.Conn.Close()
+	} else {
+		// crypto/tls closes a connection whose handshake context expired from a
+		// goroutine of its own (context.AfterFunc); give such closers time to finish
+		t.Sleep(10 * time.Second)
+		for k := range res.Hooks {
+			if c := res.Hooks[k].Conn; c != nil {
+				res.Hooks[k].ClosedLater = c.IsClosed()
+			}
+		}
+	}
+}
+
+// ---------------------------------------------------------------------------
+// Backend node
+// ---------------------------------------------------------------------------
+
+type firstBytes struct {
+	net.Conn
+	buf *[]byte
+}
+
+func (f firstBytes) Read(p []byte) (int, error) {
+	n, err := f.Conn.Read(p)
+	if len(*f.buf) < 64 {
+		*f.buf = append(*f.buf, p[:n]...)
+	}
+	return n, err
+}
+
+func (h *hsRunner) serveBackend(i int, sc *SimConn, log *BackendLog) {
+	d := &h.scn.HS.Dials[i]
+	b := &d.Backend
+	log.Accepted++
+	log.SrvConn = sc
+	var c net.Conn = firstBytes{sc, &log.RawFirst}
+	if b.TLS {
+		tc := h.serverTLS(c, b.Cert, hostOnly(backendAddr(d)), &log.SNI)
+		if err := tc.Handshake(); err != nil {
+			log.TLSErr = err.Error()
+			sc.Close()
+			return
+		}
+		c = tc
+	}
+	switch b.Kind {
+	case "silent":
+		// accept and never answer; the connection stays open
+		buf := make([]byte, 4096)
+		for {
+			n, err := c.Read(buf)
+			log.Request = append(log.Request, buf[:n]...)
+			if err != nil {
+				return
+			}
+		}
+	case "upgrader":
+		br := bufio.NewReaderSize(c, 4096)
+		req, err := http.ReadRequest(br)
+		if err != nil {
+			c.Close()
+			return
+		}
+		log.HTTPParsed = req
+		log.Key = req.Header.Get("Sec-Websocket-Key")
+		w := &stubRW{conn: c, br: br, bw: bufio.NewWriterSize(c, 4096), hdr: http.Header{}}
+		u := websocket.Upgrader{EnableCompression: b.Comp, CheckOrigin: func(*http.Request) bool { return true }}
+		if b.HsTimeoutMs > 0 {
+			u.HandshakeTimeout = time.Duration(b.HsTimeoutMs) * time.Millisecond
+		}
+		conn, err := u.Upgrade(w, req, nil)
+		if err != nil {
+			log.UpgradeErr = err.Error()
+			if !w.hijacked {
+				fmt.Fprintf(c, "HTTP/1.1 %d X\r\nContent-Length: 0\r\n\r\n", w.status)
+				c.Close()
+			}
+			return
+		}
+		log.Upgraded = true
+		for {
+			mt, p, err := conn.ReadMessage()
+			if err != nil {
+				conn.Close()
+				return
+			}
+			if conn.WriteMessage(mt, p) != nil {
+				conn.Close()
+				return
+			}
+			log.Echoed++
+		}
+	default: // byz
+		head, _, err := readHead(c)
+		log.Request = head
+		if err != nil {
+			c.Close()
+			return
+		}
+		if req, err := http.ReadRequest(bufio.NewReader(bytes.NewReader(head))); err == nil {
+			log.HTTPParsed = req
+			log.Key = req.Header.Get("Sec-Websocket-Key")
+		}
+		h.keys = append(h.keys, log.Key)
+		out := h.buildReply(&b.Reply, log.Key, i)
+		if b.Reply.TruncAt > 0 && b.Reply.TruncAt < len(out) {
+			out = out[:b.Reply.TruncAt]
+		}
+		c.Write(out)
+		if b.Reply.TruncAt > 0 || b.Reply.CloseAfter {
+			c.Close()
+			return
+		}
+		// stay around: answer a text message with an echo if the client got that far
+		sc.drainForever()
+	}
+}
+
+// buildReply renders a byzantine reply. The harness knows exactly what it sent.
+func (h *hsRunner) buildReply(r *Reply, key string, dialIdx int) []byte {
+	if r.Raw != nil {
+		return r.Raw
+	}
+	var b bytes.Buffer
+	if r.StatusLine != "" {
+		b.WriteString(r.StatusLine + "\r\n")
+	} else {
+		fmt.Fprintf(&b, "HTTP/1.1 %d %s\r\n", r.Status, http.StatusText(r.Status))
+	}
+	for _, v := range r.Upgrade {
+		b.WriteString("Upgrade: " + v + "\r\n")
+	}
+	for _, v := range r.Connection {
+		b.WriteString("Connection: " + v + "\r\n")
+	}
+	if a, ok := h.acceptValue(r.Accept, key, dialIdx); ok {
+		b.WriteString("Sec-WebSocket-Accept: " + a + "\r\n")
+	}
+	if r.Ext != "" {
+		b.WriteString("Sec-WebSocket-Extensions: " + r.Ext + "\r\n")
+	}
+	for _, kv := range r.Extra {
+		b.WriteString(kv[0] + ": " + kv[1] + "\r\n")
+	}
+	if r.BodyLen > 0 || r.Status != 101 {
+		fmt.Fprintf(&b, "Content-Length: %d\r\n", r.BodyLen)
+	}
+	b.WriteString("\r\n")
+	for i := 0; i < r.BodyLen; i++ {
+		b.WriteByte(byte('a' + i%26))
+	}
+	return b.Bytes()
+}
+
+func (h *hsRunner) acceptValue(mode, key string, dialIdx int) (string, bool) {
+	switch mode {
+	case "missing":
+		return "", false
+	case "stale":
+		// the Accept that was right for an earlier dial of this run
+		if len(h.keys) >= 2 {
+			return acceptKey(h.keys[len(h.keys)-2]), true
+		}
+		return acceptKey("dGhlIHNhbXBsZSBub25jZQ=="), true
+	case "other":
+		return acceptKey(base64.StdEncoding.EncodeToString([]byte("0123456789abcdef"))), true
+	case "mangled":
+		a := []byte(acceptKey(key))
+		a[len(a)/2] ^= 1
+		return string(a), true
+	case "lower":
+		return strings.ToLower(acceptKey(key)), true
+	case "space":
+		return acceptKey(key) + " x", true
+	}
+	return acceptKey(key), true
+}
+
+// ---------------------------------------------------------------------------
+// Proxy nodes
+// ---------------------------------------------------------------------------
+
+func (h *hsRunner) serveProxy(i int, sc *SimConn) {
+	d := &h.scn.HS.Dials[i]
+	p := d.Proxy
+	log := &h.res[i].Proxy
+	var c net.Conn = firstBytes{sc, &log.RawFirst}
+	if p.Kind == "https" {
+		tc := h.serverTLS(c, p.Cert, hostOnly(proxyAddr(d)), &log.SNI)
+		if err := tc.Handshake(); err != nil {
+			sc.Close()
+			return
+		}
+		c = tc
+	}
+	if p.Kind == "socks5" {
+		h.serveSocks(i, c, sc, log)
+		return
+	}
+	br := bufio.NewReader(c)
+	req, err := http.ReadRequest(br)
+	if err != nil {
+		log.FirstBytes = append(log.FirstBytes, log.RawFirst...)
+		c.Close()
+		return
+	}
+	log.Connects++
+	log.Targets = append(log.Targets, req.Method+" "+req.RequestURI+" host="+req.Host)
+	log.Auth = append(log.Auth, req.Header.Get("Proxy-Authorization"))
+	switch p.Reply {
+	case "200":
+		c.Write([]byte("HTTP/1.1 200 Connection established\r\n\r\n"))
+	case "403":
+		c.Write([]byte("HTTP/1.1 403 Forbidden\r\nContent-Length: 0\r\n\r\n"))
+		c.Close()
+		return
+	case "407":
+		c.Write([]byte("HTTP/1.1 407 Proxy Authentication Required\r\nProxy-Authenticate: Basic\r\nContent-Length: 0\r\n\r\n"))
+		c.Close()
+		return
+	case "407-noreason":
+		c.Write([]byte("HTTP/1.1 407\r\nContent-Length: 0\r\n\r\n"))
+		c.Close()
+		return
+	case "502-long":
+		c.Write([]byte("HTTP/1.1 502 Bad Gateway\r\nContent-Length: 5000\r\n\r\n" + strings.Repeat("x", 5000)))
+		c.Close()
+		return
+	case "garbage":
+		c.Write([]byte("\x00\x01garbage that is not HTTP\r\n\r\n"))
+		c.Close()
+		return
+	case "raw":
+		c.Write(p.Raw)
+		// keep the connection open for a moment, then close: a reply that never ends must not hang the client forever
+		time.Sleep(time.Hour)
+		c.Close()
+		return
+	case "close":
+		c.Close()
+		return
+	case "silent":
+		return
+	}
+	h.tunnel(c, br, req.RequestURI, log)
+}
+
+// tunnel relays bytes between the client and the target node.
+func (h *hsRunner) tunnel(c net.Conn, br *bufio.Reader, target string, log *ProxyLog) {
+	up, err := h.net.Dial(nil, target)
+	if err != nil {
+		c.Close()
+		return
+	}
+	go func() {
+		buf := make([]byte, 4096)
+		for {
+			n, err := up.Read(buf)
+			if n > 0 {
+				if _, werr := c.Write(buf[:n]); werr != nil {
+					up.Close()
+					return
+				}
+			}
+			if err != nil {
+				c.Close()
+				return
+			}
+		}
+	}()
+	buf := make([]byte, 4096)
+	for {
+		var n int
+		var err error
+		if br != nil {
+			n, err = br.Read(buf)
+		} else {
+			n, err = c.Read(buf)
+		}
+		if n > 0 {
+			if len(log.TunnelFirst) < 64 {
+				log.TunnelFirst = append(log.TunnelFirst, buf[:n]...)
+			}
+			if _, werr := up.Write(buf[:n]); werr != nil {
+				c.Close()
+				return
+			}
+		}
+		if err != nil {
+			up.Close()
+			return
+		}
+	}
+}
+
+func (h *hsRunner) serveSocks(i int, c net.Conn, sc *SimConn, log *ProxyLog) {
+	d := &h.scn.HS.Dials[i]
+	p := d.Proxy
+	hdr := make([]byte, 2)
+	if _, err := io.ReadFull(c, hdr); err != nil || hdr[0] != 5 {
+		c.Close()
+		return
+	}
+	methods := make([]byte, hdr[1])
+	if _, err := io.ReadFull(c, methods); err != nil {
+		c.Close()
+		return
+	}
+	wantAuth := bytes.IndexByte(methods, 2) >= 0
+	if wantAuth {
+		c.Write([]byte{5, 2})
+		ah := make([]byte, 2)
+		io.ReadFull(c, ah)
+		u := make([]byte, ah[1])
+		io.ReadFull(c, u)
+		pl := make([]byte, 1)
+		io.ReadFull(c, pl)
+		pw := make([]byte, pl[0])
+		io.ReadFull(c, pw)
+		log.SocksAuth = string(u) + ":" + string(pw)
+		c.Write([]byte{1, 0})
+	} else {
+		c.Write([]byte{5, 0})
+	}
+	rq := make([]byte, 4)
+	if _, err := io.ReadFull(c, rq); err != nil {
+		c.Close()
+		return
+	}
+	var host string
+	switch rq[3] {
+	case 1:
+		a := make([]byte, 4)
+		io.ReadFull(c, a)
+		host = net.IP(a).String()
+	case 4:
+		a := make([]byte, 16)
+		io.ReadFull(c, a)
+		host = "[" + net.IP(a).String() + "]"
+	case 3:
+		l := make([]byte, 1)
+		io.ReadFull(c, l)
+		a := make([]byte, l[0])
+		io.ReadFull(c, a)
+		host = string(a)
+	}
+	pt := make([]byte, 2)
+	io.ReadFull(c, pt)
+	target := fmt.Sprintf("%s:%d", host, int(pt[0])<<8|int(pt[1]))
+	log.Connects++
+	log.SocksTarget = target
+	log.Targets = append(log.Targets, "SOCKS5 "+target)
+	if p.Reply == "silent" {
+		return
+	}
+	if p.SocksCode != 0 {
+		c.Write([]byte{5, p.SocksCode, 0, 1, 0, 0, 0, 0, 0, 0})
+		c.Close()
+		return
+	}
+	c.Write([]byte{5, 0, 0, 1, 0, 0, 0, 0, 0, 0})
+	h.tunnel(c, nil, target, log)
+}
+
+// ---------------------------------------------------------------------------
+// Server-side class: a byzantine client against a real Upgrader
+// ---------------------------------------------------------------------------
+
+func (h *hsRunner) runServerSide(hs *HSScn) {
+	log := &BackendLog{}
+	h.run.HS.Srv = log
+	addr := "srv.test:80"
+	if hs.Srv.Server == "nethttp" {
+		lis := h.net.Listen(addr)
+		srv := &http.Server{Handler: http.HandlerFunc(func(w http.ResponseWriter, r *http.Request) { h.upgradeSrv(hs, w, r, log) })}
+		go srv.Serve(lis)
+	} else {
+		h.net.Handle(addr, func(c *SimConn) {
+			log.SrvConn = c
+			br := bufio.NewReaderSize(c, 4096)
+			req, err := http.ReadRequest(br)
+			if err != nil {
+				log.UpgradeErr = "bad request: " + err.Error()
+				c.Close()
+				return
+			}
+			w := &stubRW{conn: c, br: br, bw: bufio.NewWriterSize(c, 4096), hdr: http.Header{}}
+			h.upgradeSrv(hs, w, req, log)
+			if !w.hijacked {
+				st := w.status
+				if st == 0 {
+					st = 200
+				}
+				var b bytes.Buffer
+				fmt.Fprintf(&b, "HTTP/1.1 %d %s\r\n", st, http.StatusText(st))
+				w.hdr.Set("Content-Length", fmt.Sprint(w.body.Len()))
+				w.hdr.Write(&b)
+				b.WriteString("\r\n")
+				b.Write(w.body.Bytes())
+				c.Write(b.Bytes())
+				c.Close()
+			}
+		})
+	}
+	h.sim.GoID(0, "byzclient", func(t *Task) {
+		c, err := h.net.Dial(t, addr)
+		if err != nil {
+			return
+		}
+		c.Write(hs.SrvReq)
+		buf := make([]byte, 4096)
+		for {
+			n, err := c.Read(buf)
+			h.run.HS.SrvResp = append(h.run.HS.SrvResp, buf[:n]...)
+			if err != nil || len(h.run.HS.SrvResp) > 1<<16 {
+				break
+			}
+			if bytes.Contains(h.run.HS.SrvResp, []byte("\r\n\r\n")) {
+				break
+			}
+		}
+		c.Close()
+	})
+}
+
+func (h *hsRunner) upgradeSrv(hs *HSScn, w http.ResponseWriter, r *http.Request, log *BackendLog) {
+	log.HTTPParsed = r
+	log.Accepted++
+	u := websocket.Upgrader{EnableCompression: hs.Srv.Comp, Subprotocols: []string{"chat", "v2"}}
+	if hs.Srv.HsTimeoutMs > 0 {
+		u.HandshakeTimeout = time.Duration(hs.Srv.HsTimeoutMs) * time.Millisecond
+	}
+	func() {
+		defer func() {
+			if p := recover(); p != nil {
+				log.UpgradeErr = fmt.Sprintf("PANIC: %v\n%s", p, stackTrace())
+			}
+		}()
+		_ = websocket.IsWebSocketUpgrade(r)
+		_ = websocket.Subprotocols(r)
+		conn, err := u.Upgrade(w, r, nil)
+		if err != nil {
+			log.UpgradeErr = err.Error()
+			return
+		}
+		log.Upgraded = true
+		log.SrvConn = underlyingSim(conn.NetConn())
+		conn.Close()
+	}()
+}
+
+func shrinkHS(s *Scenario) []*Scenario {
+	var out []*Scenario
+	hs := s.HS
+	if len(hs.Dials) > 1 {
+		c := cloneScenario(s)
+		c.HS.Dials = c.HS.Dials[1:]
+		out = append(out, c)
+		c = cloneScenario(s)
+		c.HS.Dials = c.HS.Dials[:len(c.HS.Dials)-1]
+		out = append(out, c)
+	}
+	for i := range hs.Dials {
+		if hs.Dials[i].Backend.Reply.BodyLen > 0 {
+			c := cloneScenario(s)
+			c.HS.Dials[i].Backend.Reply.BodyLen /= 2
+			out = append(out, c)
+		}
+		if hs.Dials[i].IdleMs > 0 {
+			c := cloneScenario(s)
+			c.HS.Dials[i].IdleMs = 0
+			out = append(out, c)
+		}
+	}
+	return out
+}
